@@ -35,6 +35,61 @@ def build(reg):
     return T
 
 
+def build_emission_sweep(tier, seed):
+    """HttpParser.build() is used through an assumed field-emission contract by C02 / C08 / C12 (its dict
+    comprehension is outside the engine's subset).  Bounded check of that contract on the real function:
+    parsed requests with varied field-name spellings x --disable-headers subsets x host= argument; the header
+    fields the upstream would see (split independently of proxy.py's parser) must be exactly the client's,
+    minus the disabled ones, with the Host value replaced exactly once when host= is given, and the body framing
+    field kept single."""
+    import itertools
+    import random
+    from proxy.http.parser import HttpParser
+    rnd = random.Random(seed + 77)
+    bad, n = [], 0
+    names = [(b'Host', b'host', b'HOST'), (b'X-A', b'x-a'), (b'Accept', b'ACCEPT'), (b'Proxy-Connection', b'proxy-connection'),
+             (b'Content-Length', b'content-length', b'CONTENT-LENGTH'), (b'Transfer-Encoding', b'transfer-encoding')]
+    for _ in range(300 if tier == 'quick' else 3000):
+        body = rnd.choice([b'', b'abc', b'x' * 40])
+        chunked = rnd.random() < 0.3
+        fields = [(rnd.choice(names[0]), b'front.example')]
+        for grp in names[1:4]:
+            if rnd.random() < 0.6:
+                fields.append((rnd.choice(grp), rnd.choice([b'1', b'v w', b'keep-alive'])))
+        if chunked:
+            fields.append((rnd.choice(names[5]), b'chunked'))
+            wire_body = b''.join(b'%x\r\n%s\r\n' % (len(body[i:i + 7]), body[i:i + 7]) for i in range(0, len(body), 7)) + b'0\r\n\r\n'
+        else:
+            if body:
+                fields.append((rnd.choice(names[4]), b'%d' % len(body)))
+            wire_body = body
+        rnd.shuffle(fields)
+        raw = b'POST /p?q=1 HTTP/1.1\r\n' + b''.join(k + b': ' + v + b'\r\n' for k, v in fields) + b'\r\n' + wire_body
+        p = HttpParser.request(raw)
+        if not p.is_complete:
+            bad.append({'what': 'generated request does not parse to completion', 'request': raw[:120].decode('latin-1')})
+            continue
+        disabled = rnd.choice([None, [], [b'x-a'], [b'accept', b'proxy-connection'], [b'host']])
+        host = rnd.choice([None, None, b'up.example', b'up.example:8080'])
+        out = p.build(disable_headers=disabled, host=host)
+        n += 1
+        head = out.split(b'\r\n\r\n', 1)[0].split(b'\r\n')
+        got = sorted((l.split(b': ', 1)[0], l.split(b': ', 1)[1] if b': ' in l else b'') for l in head[1:])
+        dis = set(disabled if disabled is not None else [b'proxy-connection'] if False else (disabled or []))
+        if disabled is None:
+            from proxy.common.constants import DEFAULT_DISABLE_HEADERS
+            dis = set(DEFAULT_DISABLE_HEADERS)
+        want = sorted((k, (host if (host is not None and k.lower() == b'host') else v)) for k, v in fields if k.lower() not in dis)
+        case = {'request_fields': repr(fields)[:200], 'disable_headers': repr(disabled), 'host_argument': repr(host)}
+        if head[0] != b'POST /p?q=1 HTTP/1.1':
+            bad.append(dict(case, what='request line %r' % head[0]))
+        elif got != want:
+            bad.append(dict(case, what='emitted fields differ from the client\'s', emitted=repr(got)[:300], expected=repr(want)[:300]))
+    return {'name': 'HttpParser.build() field emission vs the client\'s fields (the assumed contract of C02/C08/C12, checked on the real function)',
+            'bounded': True, 'bound': '%d random parsed requests (field-name spellings x framing x --disable-headers x host=)' % (300 if tier == 'quick' else 3000),
+            'cases': n, 'violations': bad[:3]}
+
+
 def bounded_checks(reg, tier, seed):
     import itertools
     from unittest import mock
@@ -148,7 +203,7 @@ def bounded_checks(reg, tier, seed):
     return [{'name': 'native end-to-end sweep: forwarded request vs client request (independent parser)', 'bounded': True,
              'bound': 'request family (methods x bodies x framing) x first/later position x 1- and 2-piece segmentations'
                       + ('' if tier == 'quick' else ' x sampled 3-piece'),
-             'cases': n, 'violations': bad[:3]}]
+             'cases': n, 'violations': bad[:3]}, build_emission_sweep(tier, seed)]
 
 
 CROSSCHECK = ['HttpParser.del_header', 'HttpParser.del_headers', 'build_http_request', 'build_http_pkt', 'HttpParser._get_body_or_chunks']
